@@ -2,6 +2,7 @@ import OvniModel.Emu.Stream
 import OvniModel.Lemmas.RtEvent
 
 /-! Helper lemmas for the stream cursor (C12, C19). -/
+set_option linter.unusedSimpArgs false
 namespace Ovni.Emu.Stream
 open Ovni.Rt (le unle le_length unle_le)
 
@@ -370,5 +371,291 @@ theorem walk_to_last (ld : Loader) (g : Garbage) (u : Bool) (init : List SEv) (l
     rw [walk ld g u l post hwl mid buf header e0 fuel hld hb2 hw0
       (fun x hx => hw x (by simp [hx])) (by simpa using hs)]
     simp only [encodeAll_cons]
+
+/-! ### more fuel does not change a finished run -/
+
+theorem runWith_stable (step : Cur → Res × Cur × List Read) (k : Nat) :
+    ∀ (fuel : Nat) (c : Cur), runWith step fuel c ≠ .running →
+      runWith step (fuel + k) c = runWith step fuel c := by
+  intro fuel
+  induction fuel with
+  | zero => intro c h; exact absurd rfl h
+  | succ n ih =>
+    intro c h
+    have : n + 1 + k = (n + k) + 1 := by omega
+    rw [this]
+    unfold runWith at h ⊢
+    split
+    · rename_i c' rd heq
+      rw [heq] at h
+      exact ih c' h
+    · rfl
+    · rfl
+
+/-- If from some fuel on the loop ends with an error, it never reports a clean end. -/
+theorem never_eof (step : Cur → Res × Cur × List Read) (c : Cur) (N : Nat) (e : Err)
+    (h : runWith step N c = .err e) : ∀ fuel, runWith step fuel c ≠ .eof := by
+  intro fuel hf
+  have h1 := runWith_stable step N fuel c (by rw [hf]; exact fun h => nomatch h)
+  have h2 := runWith_stable step fuel N c (by rw [h]; exact fun h => nomatch h)
+  rw [Nat.add_comm, h2, hf, h] at h1
+  exact nomatch h1
+
+/-! ### a truncated last event -/
+
+theorem encode_drop12 (e : SEv) (h3 : e.mcv.length = 3) : e.encode.drop 12 = e.body := by
+  obtain ⟨a, b, c, hm⟩ := mcv3 _ h3
+  simp only [SEv.encode, hm]
+  simp only [List.cons_append, List.nil_append, List.drop_succ_cons]
+  rw [List.drop_append_of_le_length (by rw [le_length]; omega), List.drop_of_length_le (by rw [le_length]; omega)]
+  rfl
+
+theorem jumboSizeAt_trunc (g : Garbage) (pre : List Nat) (e : SEv) (h3 : e.mcv.length = 3) (r : Nat)
+    (h16 : 16 ≤ r) (hr2 : r ≤ e.encode.length) :
+    jumboSizeAt g (pre ++ e.encode.take r) (pre.length : Int) = unle (e.body.take 4) := by
+  unfold jumboSizeAt
+  have : readLE g (pre ++ e.encode.take r) ((pre.length : Int) + 12) 4 = _ :=
+    readLE_app g pre (e.encode.take r) 4 12 (by rw [List.length_take]; omega)
+  rw [this, List.drop_take, List.take_take, encode_drop12 e h3]
+  have : min 4 (r - 12) = 4 := by omega
+  rw [this]
+
+/-- The size field of a truncated event is still the original one as long as
+    the flags byte — and for a jumbo event the 4-byte size — survived. -/
+theorem evSizeC_trunc (g : Garbage) (pre : List Nat) (e : SEv) (hw : e.WF) (r : Nat) (hr : 0 < r)
+    (hj : isJumboF e.flags = true → 16 ≤ r) (hr2 : r ≤ e.encode.length) :
+    evSizeC g (pre ++ e.encode.take r) (pre.length : Int) = (e.encode.length : Int) := by
+  obtain ⟨h3, hc, hb⟩ := hw
+  have hlen := encode_length e h3
+  have hf : flagsAt g (pre ++ e.encode.take r) (pre.length : Int) = e.flags := by
+    have := byteAt_app g pre (e.encode.take r) 0 (by rw [List.length_take]; omega)
+    obtain ⟨r', rfl⟩ : ∃ r', r = r' + 1 := ⟨r - 1, by omega⟩
+    simpa [flagsAt, SEv.encode] using this
+  unfold evSizeC payloadSizeC
+  rw [hf]
+  by_cases j : isJumboF e.flags = true
+  · rw [if_pos j] at hb
+    have h16 := hj j
+    rw [if_pos j, jumboSizeAt_trunc g pre e h3 r h16 hr2, hb.2.1]
+    rw [wrap32_id (4 + ((e.body.length - 4 : Nat) : Int)) (by omega) (by omega),
+      wrap32_id _ (by omega) (by omega)]
+    omega
+  · rw [if_neg j] at hb
+    rw [if_neg j]
+    have := nibSize_le e.flags
+    rw [wrap32_id _ (by omega) (by omega)]
+    omega
+
+theorem loadEv_trunc (g : Garbage) (pre : List Nat) (e : SEv) (hw : e.WF) (r : Nat) (hr : 0 < r)
+    (hj : isJumboF e.flags = true → 16 ≤ r) (hr2 : r < e.encode.length) (c : Cur) (r1 : List Read) :
+    ∃ c' rd, loadEv g (pre ++ e.encode.take r) c (pre.length : Int) r1 = (.err .incomplete, c', rd) := by
+  unfold loadEv
+  rw [evSizeC_trunc g pre e hw r hr hj (by omega)]
+  have hx : (pre.length : Int) + (e.encode.length : Int) > ((pre ++ e.encode.take r).length : Int) := by
+    simp only [List.length_append, List.length_take]; omega
+  rw [if_pos hx]
+  exact ⟨_, _, rfl⟩
+
+/-- The repaired loader refuses every strict prefix of a well-formed event,
+    whatever lies beyond the end of the buffer. -/
+theorem Fixed.loadEv_trunc (g : Garbage) (pre : List Nat) (e : SEv) (hw : e.WF) (r : Nat) (hr : 0 < r)
+    (hr2 : r < e.encode.length) (c : Cur) (r1 : List Read) :
+    ∃ c' rd, Fixed.loadEv g (pre ++ e.encode.take r) c (pre.length : Int) r1 = (.err .incomplete, c', rd) := by
+  have hlen : ((pre ++ e.encode.take r).length : Int) = (pre.length : Int) + (r : Int) := by
+    simp only [List.length_append, List.length_take]; omega
+  unfold Fixed.loadEv
+  by_cases h12 : r < 12
+  · rw [if_pos (by omega)]; exact ⟨_, _, rfl⟩
+  · rw [if_neg (by omega)]
+    have hf : flagsAt g (pre ++ e.encode.take r) (pre.length : Int) = e.flags := by
+      have := byteAt_app g pre (e.encode.take r) 0 (by rw [List.length_take]; omega)
+      obtain ⟨r', rfl⟩ : ∃ r', r = r' + 1 := ⟨r - 1, by omega⟩
+      simpa [flagsAt, SEv.encode] using this
+    rw [hf]
+    by_cases j : isJumboF e.flags = true
+    · by_cases h16 : r < 16
+      · rw [if_pos ⟨j, by omega⟩]; exact ⟨_, _, rfl⟩
+      · rw [if_neg (by intro ⟨_, h⟩; omega)]
+        have hb := hw.2.2
+        rw [if_pos j] at hb
+        rw [jumboSizeAt_trunc g pre e hw.1 r (by omega) (by omega), hb.2.1]
+        rw [if_neg (by intro ⟨_, h⟩; omega)]
+        exact Stream.loadEv_trunc g pre e hw r hr (fun _ => by omega) hr2 c r1
+    · rw [if_neg (by intro ⟨h, _⟩; exact j h), if_neg (by intro ⟨h, _⟩; exact j h)]
+      exact Stream.loadEv_trunc g pre e hw r hr (fun h => absurd h j) hr2 c r1
+
+/-! ### whole-stream verdicts, generic in the loader -/
+
+theorem header_eq : header = [111, 118, 110, 105, 1, 0, 0, 0] := by decide
+
+theorem loadObs_header (rest : List Nat) (h : rest ≠ []) (u : Bool) :
+    loadObs (header ++ rest) u = .ok (cur0 u) := by
+  have hpos : 0 < rest.length := List.length_pos_iff.mpr h
+  unfold loadObs
+  rw [if_neg (by simp [header_eq]), if_neg (by simp [header_eq])]
+  rw [if_neg (by simp [header_eq, Ovni.Generated.streamMagic, Ovni.Generated.streamVersion, unle])]
+  simp [cur0, header_eq]; omega
+
+theorem encode_ne_nil (e : SEv) : e.encode ≠ [] := by simp [SEv.encode]
+
+theorem acceptsWith_false (step : Cur → Res × Cur × List Read) (rest : List Nat) (h : rest ≠ [])
+    (N : Nat) (e : Err) (hN : runWith step N (cur0 false) = .err e) :
+    ∀ fuel, acceptsWith step fuel (header ++ rest) = false := by
+  intro fuel
+  unfold acceptsWith
+  rw [loadObs_header rest h]
+  simp only [cur0, if_true]
+  have := never_eof step (cur0 false) N e hN fuel
+  simp only [cur0] at this
+  simpa using this
+
+/-- A valid stream is let through in `evs.length + 1` calls. -/
+theorem accepts_valid_with (ld : Loader) (g : Garbage) (evs : List SEv) (hv : Valid evs)
+    (hld : LdOk g (streamBytes evs) ld) :
+    acceptsWith (stepWith ld g (streamBytes evs)) (evs.length + 1) (streamBytes evs) = true := by
+  obtain ⟨hne, hw, hs⟩ := hv
+  obtain ⟨init, l, rfl⟩ : ∃ init l, evs = init ++ [l] :=
+    ⟨evs.dropLast, evs.getLast hne, (List.dropLast_concat_getLast hne).symm⟩
+  have hb : streamBytes (init ++ [l]) = header ++ (encodeAll init ++ (l.encode ++ [])) := by
+    simp [streamBytes, encodeAll_append, encodeAll]
+  unfold acceptsWith
+  rw [show streamBytes (init ++ [l]) = header ++ encodeAll (init ++ [l]) from rfl,
+    loadObs_header _ (by simp [encodeAll_append, encodeAll, encode_ne_nil])]
+  simp only [cur0, if_true]
+  have hwk := walk_to_last ld g false init l [] (streamBytes (init ++ [l])) 1 hld hb hw hs
+  have hb2 : streamBytes (init ++ [l]) = (header ++ encodeAll init) ++ l.encode := by
+    rw [hb]; simp only [List.append_nil, List.append_assoc]
+  obtain ⟨c', rd, hl⟩ := step_last ld g (header ++ encodeAll init) l (hw l (by simp)) l.clock false
+  rw [← hb2] at hl
+  have hlen : (init ++ [l]).length + 1 = init.length + 1 + 1 := by simp
+  rw [show header ++ encodeAll (init ++ [l]) = streamBytes (init ++ [l]) from rfl, hlen]
+  simp only [cur0] at hwk
+  rw [hwk, runWith_eof _ 0 _ c' rd hl]
+  rfl
+
+/-- Truncation strictly inside the last event, for a loader that refuses the torn event. -/
+theorem trunc_with (ld : Loader) (g : Garbage) (init : List SEv) (l : SEv) (r : Nat)
+    (hv : Valid (init ++ [l])) (hr : 0 < r) (hr2 : r < l.encode.length)
+    (hld : LdOk g (streamBytes init ++ l.encode.take r) ld)
+    (hfin : ∀ (pre : List Nat) (c : Cur) (r1 : List Read),
+      streamBytes init ++ l.encode.take r = pre ++ l.encode.take r →
+      ∃ c' rd, ld c (pre.length : Int) r1 = (.err .incomplete, c', rd)) :
+    ∀ fuel, acceptsWith (stepWith ld g (streamBytes init ++ l.encode.take r)) fuel
+      (streamBytes init ++ l.encode.take r) = false := by
+  obtain ⟨_, hw, hs⟩ := hv
+  have htk : l.encode.take r ≠ [] := by
+    intro h
+    have := congrArg List.length h
+    simp only [List.length_take, List.length_nil] at this
+    omega
+  have hb0 : streamBytes init ++ l.encode.take r = header ++ (encodeAll init ++ l.encode.take r) := by
+    simp [streamBytes]
+  rcases List.eq_nil_or_concat init with rfl | ⟨init', p, hcc⟩
+  · -- the torn event is the first one
+    have hb : streamBytes [] ++ l.encode.take r = header ++ l.encode.take r := by
+      simp [streamBytes, encodeAll]
+    obtain ⟨c', rd, h⟩ := hfin header (cur0 false) [] hb
+    rw [hb] at hld ⊢
+    refine acceptsWith_false _ _ htk 1 .incomplete ?_
+    have : stepWith ld g (header ++ l.encode.take r) (cur0 false) = (.err .incomplete, c', rd) := by
+      rw [step_first]; exact h
+    exact runWith_err _ 0 _ c' rd _ this
+  · rw [List.concat_eq_append] at hcc
+    subst hcc
+    have hb : streamBytes (init' ++ [p]) ++ l.encode.take r =
+        header ++ (encodeAll init' ++ (p.encode ++ l.encode.take r)) := by
+      simp [streamBytes, encodeAll_append, encodeAll]
+    have hb2 : streamBytes (init' ++ [p]) ++ l.encode.take r =
+        (header ++ encodeAll init') ++ (p.encode ++ l.encode.take r) := by
+      rw [hb]; simp only [List.append_assoc]
+    have hb3 : streamBytes (init' ++ [p]) ++ l.encode.take r =
+        (header ++ encodeAll init' ++ p.encode) ++ l.encode.take r := by
+      rw [hb]; simp only [List.append_assoc]
+    have hwp : p.WF := hw p (by simp)
+    have hw' : ∀ x ∈ init' ++ [p], x.WF := fun x hx => hw x (List.mem_append_left _ hx)
+    have hs' : Sorted (init' ++ [p]) := by
+      have : (init' ++ [p]).Sublist (init' ++ [p] ++ [l]) := List.sublist_append_left _ _
+      exact List.Pairwise.sublist this hs
+    have hwk := walk_to_last ld g false init' p (l.encode.take r) _ 1 hld hb hw' hs'
+    have hst := step_on ld g (header ++ encodeAll init') (l.encode.take r) p hwp p.clock false htk
+    rw [← hb2] at hst
+    obtain ⟨c', rd, h⟩ := hfin (header ++ encodeAll init' ++ p.encode)
+      (onEv (header ++ encodeAll init').length p.clock false)
+      (evSizeReads g (streamBytes (init' ++ [p]) ++ l.encode.take r)
+        ((header ++ encodeAll init').length : Int)) hb3
+    rw [h] at hst
+    have hN : runWith (stepWith ld g (streamBytes (init' ++ [p]) ++ l.encode.take r)) (init'.length + 1 + 1)
+        (cur0 false) = .err .incomplete := by
+      rw [hwk]; exact runWith_err _ 0 _ c' rd _ hst
+    rw [hb0] at hN ⊢
+    exact acceptsWith_false _ _ (by simp [htk]) _ _ hN
+
+/-- Two adjacent events with different clocks exchanged. -/
+theorem swap_with (ld : Loader) (g : Garbage) (pre : List SEv) (a b : SEv) (post : List SEv)
+    (hv : Valid (pre ++ a :: b :: post)) (hne : a.clock ≠ b.clock)
+    (hld : LdOk g (streamBytes (pre ++ b :: a :: post)) ld) :
+    ∀ fuel, acceptsWith (stepWith ld g (streamBytes (pre ++ b :: a :: post))) fuel
+      (streamBytes (pre ++ b :: a :: post)) = false := by
+  obtain ⟨_, hw, hs⟩ := hv
+  have hwa : a.WF := hw a (by simp)
+  have hwb : b.WF := hw b (by simp)
+  have hab : a.clock < b.clock := by
+    have h1 : Sorted (a :: b :: post) := (List.pairwise_append.mp hs).2.1
+    have := List.rel_of_pairwise_cons h1 (List.mem_cons_self)
+    omega
+  have hs' : Sorted (pre ++ [b]) := by
+    have : (pre ++ [b]).Sublist (pre ++ a :: b :: post) := by
+      apply List.Sublist.append_left
+      exact List.Sublist.cons _ (List.Sublist.cons_cons _ (List.nil_sublist _))
+    exact List.Pairwise.sublist this hs
+  have hw' : ∀ x ∈ pre ++ [b], x.WF := fun x hx => hw x (by
+    simp only [List.mem_append, List.mem_cons, List.not_mem_nil, or_false] at hx ⊢
+    rcases hx with h | h
+    · exact Or.inl h
+    · exact Or.inr (Or.inr (Or.inl h)))
+  have hb : streamBytes (pre ++ b :: a :: post) =
+      header ++ (encodeAll pre ++ (b.encode ++ (a.encode ++ encodeAll post))) := by
+    simp [streamBytes, encodeAll_append, encodeAll_cons]
+  have hb2 : streamBytes (pre ++ b :: a :: post) =
+      (header ++ encodeAll pre) ++ (b.encode ++ (a.encode ++ encodeAll post)) := by
+    rw [hb]; simp only [List.append_assoc]
+  have hb3 : streamBytes (pre ++ b :: a :: post) =
+      (header ++ encodeAll pre ++ b.encode) ++ (a.encode ++ encodeAll post) := by
+    rw [hb]; simp only [List.append_assoc]
+  have hwk := walk_to_last ld g false pre b (a.encode ++ encodeAll post) _ 1 hld hb hw' hs'
+  have hst := step_on ld g (header ++ encodeAll pre) (a.encode ++ encodeAll post) b hwb b.clock false
+    (by simp [encode_ne_nil])
+  have hok := (ev_facts g (header ++ encodeAll pre ++ b.encode) (encodeAll post) a hwa).2.2.2.2
+  rw [← hb3] at hok
+  rw [← hb2] at hst
+  rw [hld _ _ _ hok] at hst
+  have hck := fun r1 => loadEv_clock g (header ++ encodeAll pre ++ b.encode) (encodeAll post) a hwa
+    (onEv (header ++ encodeAll pre).length b.clock false) r1 rfl (by simp only [onEv]; omega)
+  rw [← hb3] at hck
+  obtain ⟨c', rd, hck⟩ := hck (evSizeReads g (streamBytes (pre ++ b :: a :: post))
+      ((header ++ encodeAll pre).length : Int))
+  rw [hck] at hst
+  have hN : runWith (stepWith ld g (streamBytes (pre ++ b :: a :: post))) (pre.length + 1 + 1)
+      (cur0 false) = .err .clock := by
+    rw [hwk]; exact runWith_err _ 0 _ c' rd _ hst
+  have hb0 : streamBytes (pre ++ b :: a :: post) = header ++ encodeAll (pre ++ b :: a :: post) := rfl
+  rw [hb0] at hN ⊢
+  exact acceptsWith_false _ _ (by simp [encodeAll_append, encodeAll_cons, encode_ne_nil]) _ _ hN
+
+/-! ### header corruption -/
+
+theorem acceptsWith_loadErr (step : Cur → Res × Cur × List Read) (fuel : Nat) (buf : List Nat) (e : LoadErr)
+    (h : loadObs buf false = .error e) : acceptsWith step fuel buf = false := by
+  unfold acceptsWith; rw [h]
+
+/-- Any change of any of the 8 header bytes (to any value at all) is refused by `load_obs`. -/
+theorem loadObs_set_header (rest : List Nat) (i : Nat) (hi : i < 8) (v : Nat)
+    (hv : v ≠ (header ++ rest).getD i 0) (u : Bool) :
+    ∃ e, loadObs ((header ++ rest).set i v) u = .error e := by
+  have hcases : i = 0 ∨ i = 1 ∨ i = 2 ∨ i = 3 ∨ i = 4 ∨ i = 5 ∨ i = 6 ∨ i = 7 := by omega
+  unfold loadObs
+  rcases hcases with rfl | rfl | rfl | rfl | rfl | rfl | rfl | rfl <;>
+    simp [header_eq, Ovni.Generated.streamMagic, Ovni.Generated.streamVersion, unle] at hv ⊢ <;>
+    (split <;> first | exact ⟨_, rfl⟩ | (split <;> first | exact ⟨_, rfl⟩ | omega))
 
 end Ovni.Emu.Stream
